@@ -39,3 +39,19 @@ func VerifPoisonPools(fill64 func(i int) float64, fill32 func(i int) float32) {
 	pixelsPool32 = sync.Pool{New: mk32(4096)}
 	pixelsPool256Alt = sync.Pool{New: mk32(65536)}
 }
+
+// VerifSetPoolAllocators replaces the four pixel pools by pools whose buffers come from the
+// given allocators (the harness hands out buffers that lie flush against guard pages, so that
+// a conversion or kernel that leaves the buffer faults instead of corrupting the heap).
+func VerifSetPoolAllocators(alloc64 func(n int) []float64, alloc32 func(n int) []float32) {
+	mk64 := func(n int) func() interface{} {
+		return func() interface{} { p := alloc64(n); return &p }
+	}
+	mk32 := func(n int) func() interface{} {
+		return func() interface{} { p := alloc32(n); return &p }
+	}
+	pixelsPool64 = sync.Pool{New: mk64(4096)}
+	pixelsPool256 = sync.Pool{New: mk64(65536)}
+	pixelsPool32 = sync.Pool{New: mk32(4096)}
+	pixelsPool256Alt = sync.Pool{New: mk32(65536)}
+}
